@@ -46,8 +46,9 @@ class Interp:
         self.impls = {}
         for n, b in bodies.items():
             m = re.match(r'^(?:\w+::)*<impl at [^>]*>::(\w+)$', n)
-            if m and 1 in b.locals:
-                t = re.sub(r"^&(?:'\w+ )?(?:mut )?", '', b.locals[1]).split('<')[0].split('::')[-1]
+            if m:
+                src_t = b.locals[1] if (1 in b.locals and b.nargs >= 1) else (b.ret_ty or '')
+                t = re.sub(r"^&(?:'\w+ )?(?:mut )?", '', src_t).split('<')[0].split('::')[-1]
                 self.impls.setdefault((t, m.group(1)), []).append(n)
 
     # ---- path management (replay based DFS) -------------------------------------------------
@@ -331,6 +332,8 @@ class Interp:
             return ast.literal_eval(s)
         if s in ('true', 'false'):
             return s == 'true'
+        if len(s) >= 3 and s[0] == "'" and s[-1] == "'":
+            return ord(rust_str('"' + s[1:-1] + '"'))
         m = re.match(r'^(-?\d+)_(\w+)$', s)
         if m:
             return int(m.group(1))
@@ -340,6 +343,17 @@ class Interp:
             return self.call(self.resolve(s), [])
         if s in self.consts:
             return copy_val(self.consts[s])
+        ic = getattr(self.bodies, 'inline_consts', None) or {}
+        if ic:
+            parts = s.split('::')
+            for k in range(len(parts)):
+                key = '::'.join(parts[k:])
+                if key in ic:
+                    return self.const(ic[key])
+        if re.match(r'^[\w:]+$', s):
+            r = self.resolve(s)
+            if r in self.bodies and self.bodies[r].nargs == 0:
+                return self.call(r, [])       # a named constant of the crate itself
         if 'HasIterator' in s:
             return Agg('HasIterator', [])
         m = re.match(r'^\{(alloc\d+): &', s)
